@@ -24,12 +24,13 @@ META = dict(
         "at_most / repeat_exact / string are read and filled only by their own function."
     ),
     not_decided=(
-        "the arithmetic of the logarithmic factorisation (at_most, repeat_exact) and of bounded_sequence — needs "
-        "induction over n"
+        "that the Earley engine derives what the rules say; the arithmetic of bounded_sequence; the base of the induction "
+        "behind R6 (R6 decides the inductive step of the factorisation: each helper meets its contract given the contracts "
+        "of the helpers it calls)"
     ),
 )
 META["explanation"] += (
-    " Added after the independent seeding rounds 2-3: " 'R4 memo caches are private to their function and keyed by its arguments. R5 bounded_sequence budget guard (shared with C06-R6).'
+    " Added after the independent seeding rounds 2-3: " 'R4 memo caches are private to their function and keyed by its arguments. R5 bounded_sequence budget guard (shared with C06-R6). R6 (round 4) repetition-count algebra: the node returned by simple_repeat / repeat_exact / at_most / at_least / repeat derives exactly the counts of its contract — count sets are computed symbolically (unions of arithmetic progressions with bounds linear in n, n/K, n%K) from the expression tree of the returned node, under the equalities of the dominating branch conditions.'
 )
 
 
@@ -240,6 +241,66 @@ def memo_keys_lossless(ctx, R):
     ctx.floor(R, "memoising functions (get + insert on one map)", n, 7)
 
 
+def rep_count_rule(ctx, R, g_none):
+    """R6: every node returned by simple_repeat / repeat_exact / at_most / at_least / repeat derives exactly the counts of
+    its contract, assuming the contracts of the helpers it calls (rules/repcount.py: symbolic count sets over n, n / K,
+    n % K).  This is the inductive step of the logarithmic factorisation; it is independent of how the pieces are named
+    or ordered.  A body outside the algebra is not judged."""
+    from .. import repcount as RC
+    P = ctx.prog
+    judged = 0
+    table = (
+        ("simple_repeat", {3: "n"}, lambda: (RC.lin(n=1), RC.lin(n=1)), "exactly n"),
+        ("repeat_exact", {3: "n"}, lambda: (RC.lin(n=1), RC.lin(n=1)), "exactly n"),
+        ("at_most", {3: "n"}, lambda: (RC.lin(0), RC.lin(n=1)), "0..=n"),
+        ("at_least", {3: "n"}, lambda: (RC.lin(n=1), RC.INF), "n.."),
+        ("repeat", {3: "min", ("opt", 4): "max"}, lambda: (RC.lin(min=1), RC.lin(max=1)), "min..=max"),
+    )
+    for fn, syms, spec, words in table:
+        b = ctx.try_body(GB + "::" + fn, R)
+        if b is None:
+            continue
+        I = RC.Interp(P, GB + "::" + fn, 2, syms)
+        defs = I.result_defs()
+        if not defs:
+            ctx.info(R, "%s: no returned node found (not judged)" % fn)
+            continue
+        n_ok = 0
+        for bi, e in defs:
+            I.why = None
+            cs = I.node(I.b, e)
+            if cs is None:
+                ctx.info(R, "%s: result at %s not interpretable (%s) — not judged" % (fn, b.where(bi), I.why))
+                continue
+            sub = I.path_subst(bi)
+            K = I.K
+            if K and getattr(I, "divsym", None):
+                sy = I.divsym
+                sub = dict(sub)
+                if sy not in sub:
+                    sub[sy] = RC.ladd(RC.lmulc(RC.lin(**{"q_" + sy: 1}), K), RC.lin(**{"r_" + sy: 1}))
+            lo, hi = spec()
+            verdict = RC.cs_equiv(cs, lo, hi, sub)
+            if verdict is not True and fn == "repeat":
+                # the unbounded arm: [min..inf) is the contract only where `max` is None
+                v2 = RC.cs_equiv(cs, lo, RC.INF, sub)
+                if v2 is True:
+                    verdict = bool(g_none) and bi not in b.reachable(0, cut_edges=g_none)
+            if verdict is None:
+                ctx.info(R, "%s: count set %s at %s not comparable — not judged" % (fn, RC.cs_fmt(cs), b.where(bi)))
+                continue
+            n_ok += 1
+            ctx.check(verdict, R, "count-set:%s#%d" % (fn, n_ok), "%s: the node built at this return derives %s = %s copies (given %s)" % (
+                fn, RC.cs_fmt(cs), words, {str(k): RC.lfmt(v) for k, v in sub.items()} or "no path equalities"),
+                      "GrammarBuilder::%s returns a node that derives the repetition counts %s, but its contract is %s%s: the factorisation "
+                      "admits or loses repetition counts" % (fn, RC.cs_fmt(cs), words,
+                                                             (" (with %s)" % ", ".join("%s = %s" % (k, RC.lfmt(v)) for k, v in sub.items())) if sub else ""),
+                      site=b.where(bi))
+        if n_ok:
+            judged += 1
+    ctx.floor(R, "repetition helpers judged by the count algebra", judged, 4)
+
+
 def run(ctx):
     P = ctx.prog
     # ------------------------------------------------------------------ R1 operator tables
@@ -338,6 +399,9 @@ def run(ctx):
         ok = len(el) == 2 and el[0].startswith("call:repeat_exact(") and el[1].startswith("call:zero_or_more(") and L.role(al, al.blocks[ex[0]]["term"]["args"][2]) == "param:3"
     ctx.check(ok, "C09-R2", "at_least:shape", "at_least(elt, n) = join[repeat_exact(elt, n), zero_or_more(elt)]",
               "at_least no longer is repeat_exact(n) followed by zero_or_more", site=al.where())
+
+    # ------------------------------------------------------------------ R6 repetition-count algebra (inductive step of the factorisation)
+    rep_count_rule(ctx, "C09-R6", g_none)
 
     # ------------------------------------------------------------------ R5 "at least one" sequence helper needs a non-zero budget
     # (shared with C06-R6: bounded_sequence(item, min, max) cannot express zero members)
